@@ -71,7 +71,7 @@ def build_groups(ctx: Ctx, model_wires):
     q = ctx.quick
     groups = []
     # (a) spec -> code: wires exported from the TLC generator
-    sample3 = set(rng.sample(range(len(model_wires)), min(len(model_wires), 25 if q else 400)))
+    sample3 = set(rng.sample(range(len(model_wires)), min(len(model_wires), 12 if q else 400)))
     for idx, (w, b) in enumerate(model_wires):
         scheds = schedules_for(len(w), rng, three_way=idx in sample3, nrandom=2)
         forms = form_plans(len(w), rng, all_sizes=False) if idx % (8 if q else 2) == 0 else []
@@ -80,7 +80,7 @@ def build_groups(ctx: Ctx, model_wires):
     corpus = mp.handmade_corpus()
     for w, b in corpus:
         n = len(w)
-        scheds = schedules_for(n, rng, three_way=(n <= (70 if q else 140)), nrandom=5 if q else 50)
+        scheds = schedules_for(n, rng, three_way=(n <= (62 if q else 140)), nrandom=5 if q else 50)
         groups.append((w, b, scheds, form_plans(n, rng, all_sizes=n <= (150 if q else 400)), n <= 120))
     for w, b in mp.browser_corpus():
         n = len(w)
